@@ -212,7 +212,8 @@ SimStepDiag(ev, p) ==
      ELSE <<"sim-steps-agree">>
 
 SkipSet == {"SKIP:transition-into-excluded-state", "SKIP:ill-defined-arithmetic",
-            "SKIP:agent-outside-space", "SKIP:no-feasible-choice"}
+            "SKIP:agent-outside-space", "SKIP:no-feasible-choice",
+            "SKIP:D18-infeasible-choice-reported-where-the-feasible-maximum-is-minus-infinity"}
 
 \* rows outside the scope of the properties are counted (nskip), not judged
 TrSimPeriod ==
@@ -229,7 +230,8 @@ TrSimPeriod ==
            ELSE verdict' = verdict
         /\ nrows' = nrows + ev.N
         /\ nskip' = nskip + Cardinality(skip)
-        /\ diag' = diag \o SimStepDiag(ev, t)
+        \* the reasons for which rows were set aside are reported with the verdict (as diagnostics)
+        /\ diag' = diag \o SimStepDiag(ev, t) \o SetToSeq({res[i] : i \in skip})
   /\ t' = t + 1
   /\ IF t = M.T - 1 THEN pc' = "events" /\ l' = l + 1 ELSE UNCHANGED <<pc, l>>
   /\ UNCHANGED <<cid, Vs, exact, Ci>>
